@@ -104,12 +104,14 @@ pub fn main(args: &[String]) {
     silence_panics();
     let which = args[0].as_str();
     let (mut seed, mut n, mut shard, mut shards) = (0u64, 100usize, 0usize, 1usize);
+    let mut pos_only = false;
     let mut i = 1;
     while i < args.len() {
         match args[i].as_str() {
             "--seed" => { seed = args[i + 1].parse().unwrap(); i += 1 }
             "--n" => { n = args[i + 1].parse().unwrap(); i += 1 }
             "--shard" => { let (a, b) = args[i + 1].split_once('/').unwrap(); shard = a.parse().unwrap(); shards = b.parse().unwrap(); i += 1 }
+            "--pos-only" => pos_only = true,
             _ => panic!("c0809: unknown argument {}", args[i]),
         }
         i += 1;
@@ -161,7 +163,7 @@ pub fn main(args: &[String]) {
                     let r = stylua_lib::Range::from_values(Some(a), Some(b));
                     let o = match format_guarded(&src, cfg, Some(r)) { Outcome::Ok(o) => o, _ => { writeln!(out, "CASE {} {} {} {}:{} {} failed", rid, syn, words.join(";"), a, b, hex(src.as_bytes())).unwrap(); continue } };
                     let oitems = match collect(&o, v) { Some(x) => x, None => { writeln!(out, "CASE {} {} {} {}:{} {} noparse {}", rid, syn, words.join(";"), a, b, hex(src.as_bytes()), hex(o.as_bytes())).unwrap(); continue } };
-                    writeln!(out, "CASE {} {} {} {}:{} {} ok {}", rid, syn, words.join(";"), a, b, hex(src.as_bytes()), hex(o.as_bytes())).unwrap();
+                    if !pos_only { writeln!(out, "CASE {} {} {} {}:{} {} ok {}", rid, syn, words.join(";"), a, b, hex(src.as_bytes()), hex(o.as_bytes())).unwrap(); }
                     // should_format_node looks at the statement node, without its semicolon
                     let inside = |it: &Item| it.start >= a && it.stmt_end <= b;
                     let stm: Vec<&Item> = items.iter().filter(|x| x.kind == "stmt").collect();
@@ -186,13 +188,19 @@ pub fn main(args: &[String]) {
                                             }
                                         }
                                     }
-                                    writeln!(out, "NODE {} {} stmt {} {} {}", rid, it.path, class, hex(exp.as_bytes()), hex(obs.as_bytes())).unwrap()
+                                    if pos_only { writeln!(out, "POS {} {} {} {} {} {} {} {} {}", rid, it.path, a, b, it.start, it.stmt_end, it.fm_end, class, (exp == obs) as u8).unwrap() }
+                                    else { writeln!(out, "NODE {} {} stmt {} {} {}", rid, it.path, class, hex(exp.as_bytes()), hex(obs.as_bytes())).unwrap() }
                                 }
                                 _ => writeln!(out, "NODE {} {} stmt inrange - MISSING", rid, it.path).unwrap(),
                             }
                         } else if !inside(it) && !contains_inside && !parent_inside {
                             match oi {
-                                Some(oi) => writeln!(out, "NODE {} {} stmt {} {} {}", rid, it.path, if it.fm_end < it.stmt_end && it.fm_end <= b && b < it.stmt_end { "outside-endquirk" } else { "outside" }, hex(slice(&src, it.start, it.end).as_bytes()), hex(slice(&o, oi.start, oi.end).as_bytes())).unwrap(),
+                                Some(oi) => {
+                                    let class = if it.fm_end < it.stmt_end && it.fm_end <= b && b < it.stmt_end { "outside-endquirk" } else { "outside" };
+                                    let (exp, obs) = (slice(&src, it.start, it.end), slice(&o, oi.start, oi.end));
+                                    if pos_only { writeln!(out, "POS {} {} {} {} {} {} {} {} {}", rid, it.path, a, b, it.start, it.stmt_end, it.fm_end, class, (exp == obs) as u8).unwrap() }
+                                    else { writeln!(out, "NODE {} {} stmt {} {} {}", rid, it.path, class, hex(exp.as_bytes()), hex(obs.as_bytes())).unwrap() }
+                                }
                                 None => writeln!(out, "NODE {} {} stmt outside {} MISSING", rid, it.path, hex(slice(&src, it.start, it.end).as_bytes())).unwrap(),
                             }
                         }
@@ -206,7 +214,7 @@ pub fn main(args: &[String]) {
                     let eof_in_range = b >= src.len();
                     let suffix_ok = if eof_in_range { let t = |x: &str| x.trim_end().to_string(); if affected.is_empty() { t(&o) == t(&src) } else { t(&o).as_bytes().ends_with(t(std::str::from_utf8(tail).unwrap_or("")).as_bytes()) } }
                         else if affected.is_empty() { o == src } else { o.as_bytes().ends_with(tail) };
-                    writeln!(out, "EDGE {} {} {} {}", rid, if prefix_ok { 1 } else { 0 }, if suffix_ok { 1 } else { 0 }, affected.len()).unwrap();
+                    if !pos_only { writeln!(out, "EDGE {} {} {} {}", rid, if prefix_ok { 1 } else { 0 }, if suffix_ok { 1 } else { 0 }, affected.len()).unwrap(); }
                 }
             }
         }
